@@ -2,7 +2,7 @@
    Only ExtrOcamlBasic is used: bool, option, unit, prod, list, sumbool, sumor are mapped to
    the OCaml types; nat, N, Z, positive stay the extracted inductive datatypes. *)
 Require Import ExtrOcamlBasic.
-Require Import Base RW Return Chain Regex Route Tree Router RouteSpec UrlPath Groups Lexer Parser Grammar Inject.
+Require Import Base RW Return Chain Regex Route Tree Router RouteSpec UrlPath Groups Lexer Parser Grammar Inject Escape.
 Extraction Language OCaml.
 Separate Extraction RW.run RW.spec_ok RW.valid_op
   Return.render Return.table Return.apply_wops Return.supported
@@ -13,4 +13,5 @@ Separate Extraction RW.run RW.spec_ok RW.valid_op
   Groups.exec Groups.flatten
   Parser.parse Grammar.bnf_parse
   Inject.value Inject.resolve Inject.apply_fields Inject.register
+  Escape.query Escape.query_trim Escape.query_unescape_acc Escape.query_bool Escape.query_int Escape.parse_int Escape.cookie_roundtrip
   RouteSpec.valid RouteSpec.spec_winner RouteSpec.all_flats RouteSpec.derivs.
